@@ -119,6 +119,26 @@ func VerifItemCounts(t *Transaction) [][3]any {
 	return out
 }
 
+// VerifWriteItemCounts: per opened [int,string] store name: number of tracked items with an update or remove action
+// (their lock records are exclusive; the records of items that were only read are compatible with other readers').
+func VerifWriteItemCounts(t *Transaction) map[string]int {
+	out := map[string]int{}
+	for _, s := range t.btreesBackend {
+		if b3, ok := s.btree.(*btree.Btree[int, string]); ok {
+			if iat, ok := btree.VerifStoreInterface(b3).ItemActionTracker.(*itemActionTracker[int, string]); ok {
+				n := 0
+				for _, ci := range iat.items {
+					if ci.Action == updateAction || ci.Action == removeAction {
+						n++
+					}
+				}
+				out[s.getStoreInfo().Name] = n
+			}
+		}
+	}
+	return out
+}
+
 // VerifValueIDs: per opened [int,string] store whose values live in their own segment (not actively persisted):
 // the ids under which commitTrackedItemsValues will write value blobs (tracked add/update items that carry a value).
 func VerifValueIDs(t *Transaction) map[string][]sop.UUID {
